@@ -173,7 +173,7 @@ func c02Gen(r *rng, n int, w *bufio.Writer) {
 		if len(focus) < 2 {
 			focus = append(focus, pick(r, poolDomains), pick(r, poolDomains))
 		}
-		if r.chance(1, 5) {
+		if r.chance(1, 4) {
 			// LONG names (log-scale total length up to the 253-byte limit, few long labels or many short ones) among
 			// the names the scenario is about: listed in hosts lines, named by rules, and asked for
 			for k := 1 + r.n(2); k > 0; k-- {
@@ -303,6 +303,9 @@ func c02Gen(r *rng, n int, w *bufio.Writer) {
 				}
 			case 1:
 				d.Hostname = pick(r, names)
+				if len(hostnames) > 30 {
+					d.Hostname = pick(r, hostnames) // a scenario with many-name lines: ask for any of the listed names
+				}
 			case 2:
 				if cs := c02HostCollisions(); len(cs) > 0 {
 					d.Hostname = pick(r, cs)[r.n(2)]
